@@ -537,6 +537,26 @@ def scratch_discipline(body, field):
                 if fl.assigns_element_unconditionally(n, mine[0][0]) and others:
                     written_over.append(others[0])
                     order.append(("w", others[0], n.get("sp"), pos[id(n)]))
+                    # ... and the element must not be read before it is written in that iteration (it still holds what the previous
+                    # call - possibly the previous frame - left there)
+                    body_ = strip(n["body"])
+                    stmts_ = body_.get("stmts", []) if body_.get("k") == "block" else []
+                    first_w = None
+                    for i_, st_ in enumerate(stmts_):
+                        e_ = strip(st_.get("e")) if st_.get("k") != "let" and st_.get("e") is not None else None
+                        if e_ is not None and e_.get("k") == "assign" and e_["l"].get("k") == "un" and e_["l"].get("op") == "Deref":
+                            tgt_ = strip(e_["l"]["e"])
+                            if tgt_.get("k") == "path" and tgt_.get("res") == "local":
+                                first_w = (i_, tgt_.get("name"), e_)
+                                break
+                    if first_w is not None:
+                        i_, nm_, asg_ = first_w
+                        reads = []
+                        for st_ in stmts_[:i_]:
+                            reads += [x for x in walk(st_) if x.get("k") == "un" and x.get("op") == "Deref" and strip(x["e"]).get("k") == "path" and strip(x["e"]).get("name") == nm_]
+                        reads += [x for x in walk(asg_["r"]) if x.get("k") == "un" and x.get("op") == "Deref" and strip(x["e"]).get("k") == "path" and strip(x["e"]).get("name") == nm_]
+                        if reads:
+                            problems.append("%s: the element is read before it is written in the write loop at %s" % (field, n.get("sp")))
                 else:
                     problems.append("iter_mut loop over %s does not assign every element" % field)
             else:
